@@ -1,6 +1,7 @@
 import AasVerif.Lemmas.JsonSchemaGenerate
 import AasVerif.Lemmas.JsonSchemaLeaf
 import AasVerif.Lemmas.JsonSchemaLookup
+import AasVerif.Lemmas.JsonSchemaChoice
 /-!
 # C11 — JSON Schema is valid and never rejects valid data
 
@@ -212,5 +213,22 @@ theorem choice_exclusive (defs : Defs) {a b : Cls} {ka kb : Text} {sa sb : Schem
     rw [h1] at h2
     simp only [Json.str.injEq] at h2
     exact hne h2
+
+/-- every concrete definition that carries `modelType` (with or without concrete descendants)
+definitely rejects — verdict `some false` for every fuel ≥ 3 — an object whose `modelType` member is
+anything but the class's model type -/
+theorem concrete_rejects_other_modelTypes (defs : Defs) {c : Cls} {k : Text} {s : Schema}
+    (h : concreteDefinition c = .ok (k, s)) (hw : c.withModelType = true) : RejectsOthers defs c.mt s :=
+  concrete_rejects_others defs h hw
+
+/-- **C11c — dispatch through `oneOf` is exact.**  For a `_choice` definition over pairwise different
+names whose definitions reject other model types (`concrete_rejects_other_modelTypes`), an object
+carrying `modelType = X` with `X` among the alternatives is accepted by the `oneOf` iff the
+alternative `X` accepts it: exactly one alternative validates, the others reject definitely. -/
+theorem choice_exact (defs : Defs) (alts : List Text) (hnd : alts.Nodup)
+    (hdefs : ∀ Y ∈ alts, ∃ sY, lookup Y defs = some sY ∧ RejectsOthers defs Y sY)
+    {X : Text} (hX : X ∈ alts) {kvs : List (Text × Json)} (hmt : lookup modelTypeKey kvs = some (.str X)) :
+    Valid defs (.mk [.oneOf (alts.map refTo)]) (.obj kvs) ↔ Valid defs (refTo X) (.obj kvs) :=
+  JsonSchema.choice_exact defs alts hnd hdefs hX hmt
 
 end AasVerif.Props.C11
